@@ -543,11 +543,11 @@ H("C18", "features::verif_h::c18_fromstr_fixed", FEATF, covers=1, stubs=[FMT], f
 
 H("C01", "lexer::verif_h::c01_keywords_instructions", LEX, covers=1, stubs=[FMT], timeout=2400,
   functions=["Cursor::check_instruction", "Cursor::check_trap", "Cursor::check_directive"], what="all 45 keywords (lowercase) -> documented token kinds; non-keywords -> Label", bounds="concrete keywords")
-for nm, q in [("hex", True), ("hex_neg", False), ("dec", False), ("dec_neg", True)]:
+for nm, q in [("hex_2", True), ("hex_3", False), ("hex_neg_2", False), ("dec_1", False), ("dec_3", False), ("dec_neg_2", True)]:
     for pp in ("C01", "C04"):
         H(pp, f"lexer::verif_h::c01_literal_{nm}", LEX, tier=("quick" if q and pp == "C01" else "thorough"), covers=2, stubs=[FMT, KW], timeout=2400, mem_gb=20,
           functions=["Cursor::advance_token", "Cursor::hex", "Cursor::dec"],
-          what=f"literal spelling '{nm}' with 1..3 symbolic digits: token value == numeric value (two's complement), token spans the literal", bounds="<= 3 digits")
+          what=f"literal spelling '{nm}' (prefix, sign, number of symbolic digits): token value == numeric value (two's complement), token spans the literal", bounds="<= 3 digits")
 SPAN_STUBS = PE_STUBS + ["AsmParser::parse_instr -> its contract towards parse(): 'operands consumed up to byte E' / 'no operand'"]
 for nm, props in [("c17_span_statement", ["C17"]), ("c17_span_break_statement", ["C17", "C11"])]:
     for pp in props:
@@ -607,7 +607,7 @@ H("C09", "debugger::command::reader::stdin::verif_h::c14_transport_multibyte", S
   what="a script with a multi-byte character reaches the debugger intact through both transports", bounds="3 bytes")
 
 for nm, q in [("char_len1", True), ("backspace_len2", False), ("delete_len2", False), ("left_right_len1", False), ("right_len1", False),
-              ("ctrl_left_len2", False), ("ctrl_right_len2", True), ("up_len1", False), ("down_len1", False), ("enter_len2", True)]:
+              ("ctrl_left_len2", False), ("ctrl_right_len1", True), ("ctrl_right_len2", False), ("up_len1", False), ("down_len1", False), ("enter_len1", True), ("enter_len2", False)]:
     H("C20", f"debugger::command::reader::terminal::verif_h::c20_key_{nm}", TERMF, tier=("quick" if q else "thorough"), covers=1, timeout=3000, mem_gb=24,
       stubs=["char::is_whitespace / char::is_alphanumeric -> exact answers on the alphabet"],
       functions=["Terminal::handle_key", "Terminal::update_next", "Terminal::get_current", "find_word_next", "find_word_back", "insert_char_index", "remove_char_index"],
@@ -617,15 +617,20 @@ for nm, q in [("char_len1", True), ("backspace_len2", False), ("delete_len2", Fa
 TRAP_STUBS = [FMT, "runtime::read_char -> next element of the harness's input queue (ASCII or U+FFFD), exit(1) at end of input",
               "Output::print_fmt -> capture sink (program output as code points)", EXIT]
 for nm, what, props, nc in [
-    ("c03_trap_getc_in_out", "GETC / OUT / IN: register frame, exactly one input character consumed, exactly the documented character printed", ["C03", "C02"], 3),
-    ("c03_trap_input_eof", "GETC / IN at end of input: exit(1)", ["C03"], 1),
-    ("c03_trap_halt_putn", "HALT: PC = 0xFFFF only; PUTN: R0 as signed decimal (length, sign, first and last digit)", ["C03", "C02"], 2),
+    ("c03_trap_getc", "GETC: R0 = the next input character, exactly one consumed, nothing printed, nothing else changes", ["C03", "C02"], 2),
+    ("c03_trap_out", "OUT: prints R0[7:0] as one character, nothing changes", ["C03", "C02"], 2),
+    ("c03_trap_in", "IN: one character consumed and echoed, R0 set", ["C03"], 2),
+    ("c03_trap_getc_eof", "GETC at end of input: exit(1)", ["C03"], 1),
+    ("c03_trap_in_eof", "IN at end of input: exit(1)", ["C03"], 1),
+    ("c03_trap_halt", "HALT: PC = 0xFFFF, nothing else changes", ["C03", "C02"], 1),
+    ("c03_trap_putn", "PUTN: R0 as signed decimal (length, sign, first and last digit), machine untouched", ["C03"], 2),
     ("c03_trap_puts", "PUTS: characters up to the first zero word", ["C03"], 2),
     ("c03_trap_putsp", "PUTSP: bytes up to the first zero byte", ["C03"], 1),
-    ("c02_trap_unknown_vector", "every trap vector outside x20..x27: exit(0xEE), nothing executed", ["C02", "C03"], 1),
+    ("c02_trap_unknown_vector", "every trap vector outside x20..x27: exit(0xEE), nothing executed, printed or read", ["C02", "C03"], 1),
     ("c03_trap_reg", "REG: prints, machine untouched", ["C03"], 1),
 ]:
     for pp in props:
         H(pp, f"runtime::verif_h::{nm}", RT, uf=True, covers=nc, stubs=TRAP_STUBS, timeout=2400, mem_gb=20,
+          tier=("thorough" if nm in ("c03_trap_puts", "c03_trap_putsp", "c03_trap_in_eof") else "quick"),
           functions=["RunState::trap", "Output::print", "Output::print_decimal", "Output::print_registers"], what=what,
           bounds="strings <= 3 words (PUTS) / 2 words (PUTSP), not running through 0xFFFF; input queue <= 2 characters")
